@@ -30,6 +30,9 @@ int main(int argc, char** argv)
 		if (p < 2147483000.0f) { std::printf("iround 17 20 %x = %llx\n", fb(p), (ull)(int64_t)glm::iround(p)); std::printf("iround/u 17 20 %x = %llx\n", fb(p), (ull)(int64_t)glm::uround(p));
 			glm::vec2 pv(p, 1.f); std::printf("iround/v2 17 20 %x = %llx\n", fb(p), (ull)(int64_t)glm::iround(pv).x); std::printf("iround/uv2 17 20 %x = %llx\n", fb(p), (ull)(int64_t)glm::uround(pv).x);
 			double pd = (double)p + (double)(rnd() % 1000) / 4096.0; std::printf("iround/f64 34 40 %llx = %llx\n", (ull)db(pd), (ull)(int64_t)glm::iround(pd)); }
+		// uround up to 2^32: binary32 values in [2^31, 2^32) are multiples of 256; doubles there carry a fraction
+		if (i % 5 == 0) { float pu = 2147483648.0f + 256.0f * (float)(rnd() % 8388607); std::printf("iround/u 17 20 %x = %llx\n", fb(pu), (ull)(int64_t)glm::uround(pu)); glm::vec2 pv(pu, 1.f); std::printf("iround/uv2 17 20 %x = %llx\n", fb(pu), (ull)(int64_t)glm::uround(pv).x);
+			double du = 2147483648.0 + (double)(rnd() % 2147483000u) + (double)(rnd() % 4096) / 4096.0; std::printf("iround/uf64 34 40 %llx = %llx\n", (ull)db(du), (ull)(int64_t)glm::uround(du)); glm::dvec2 dv(du, 1.0); std::printf("iround/udv2 34 40 %llx = %llx\n", (ull)db(du), (ull)(int64_t)glm::uround(dv).x); }
 	}
 	return 0;
 }
